@@ -58,6 +58,10 @@ def strategy():
   op = st.sampled_from(weighted).flatmap(lambda i: table[i][1]).map(list)
   return st.fixed_dictionaries({
       'backend': st.sampled_from(['ram', 'sqlmem']),
+      # 'siblings': the study is called s_0 and the same owner has studies sx0
+      # and S_0 (ids that differ in a LIKE wildcard / in case only) holding
+      # ACTIVE trials of the same workers and queued REQUESTED trials
+      'layout': st.sampled_from(['single', 'single', 'siblings']),
       'deliveries': st.lists(st.sampled_from(
           [0, 0, 0, 1, 2, 3, -1, -2, -5]), min_size=12, max_size=12),
       'ops': st.lists(op, min_size=6, max_size=40),
@@ -75,15 +79,28 @@ def check(case):
   vizier_client.environment_variables.new_suggestion_polling_secs = 0.0
   try:
     model = sm.Model(svc.std_config().to_proto(), svc.det_params)
-    histories.exec_real(s, ['create_study', 'o0', 's0'])
-    model.create_study('o0', 's0')
-    name = sm.sname('o0', 's0')
+    siblings = case.get('layout') == 'siblings'
+    sid = 's_0' if siblings else 's0'
+    ops = [op[:2] + [sid] + op[3:] for op in case['ops']]
+    histories.exec_real(s, ['create_study', 'o0', sid])
+    model.create_study('o0', sid)
+    if siblings:
+      out.cls('sibling_studies')
+      for dsid in ('sx0', 'S_0'):
+        for dop in (['create_study', 'o0', dsid],) + tuple(
+            ['create_trial', 'o0', dsid,
+             {'state': st_, 'final': None, 'client_id': w_, 'k': k_, 'md': []}]
+            for st_, w_, k_ in (('ACTIVE', 'w1', 7), ('REQUESTED', '', 8),
+                                ('ACTIVE', 'w2', 9), ('REQUESTED', '', 10))):
+          real = histories.exec_real(s, dop)
+          histories.exec_model(model, dop, real, s)
+    name = sm.sname('o0', sid)
     owner_of = {}  # trial id -> worker while ACTIVE (clause d)
     over_delivered = False
     drained_after_over = False
     reask_diff_n = False
     last_n = {}
-    for step, op in enumerate(case['ops']):
+    for step, op in enumerate(ops):
       kind = op[0]
       if kind != 'suggest':
         real = histories.exec_real(s, op)
@@ -94,14 +111,14 @@ def check(case):
               step, op, diff))
           break
         # ids may be re-used after deletion; ownership ends with ACTIVE
-        st2 = model.owners['o0']['s0']
+        st2 = model.owners['o0'][sid]
         for tid_ in list(owner_of):
           t2 = st2.trials.get(tid_)
           if t2 is None or t2.state != sm.TS.ACTIVE:
             owner_of.pop(tid_)
         continue
       _, _, _, worker, n, via = op
-      st_ = model.owners['o0']['s0']
+      st_ = model.owners['o0'][sid]
       before_ids = set(st_.trials)
       max_before = max(before_ids) if before_ids else 0
       own_before = [t for t in st_.trials.values()
@@ -131,7 +148,7 @@ def check(case):
           break
         # fetch the raw op for model comparison
         k = len(st_.ops.get(worker, {})) + 1
-        real = histories.exec_real(s, ['get_op', 'o0', 's0', worker, k])
+        real = histories.exec_real(s, ['get_op', 'o0', sid, worker, k])
         out.cls('via_client')
       else:
         real = histories.exec_real(s, op[:5])
@@ -251,5 +268,6 @@ def families(tier):
                                     'zero_delivery', 'via_client',
                                     'drained_pool_after_over_delivery',
                                     'reask_with_different_n',
-                                    'repeat_checked', 'ram', 'sqlmem')),
+                                    'repeat_checked', 'ram', 'sqlmem',
+                                    'sibling_studies')),
   ]
